@@ -35,7 +35,10 @@ try:
     from wsaccel.utf8validator import Utf8Validator
 
     def _validate_utf8(utfbytes: Union[str, bytes]) -> bool:
-        result: bool = Utf8Validator().validate(utfbytes)[0]
+        # validate() returns (valid so far, ends on a code point boundary, ...):
+        # a payload cut short inside a multi-byte sequence is not valid
+        valid, ends_on_code_point = Utf8Validator().validate(utfbytes)[:2]
+        result: bool = valid and ends_on_code_point
         return result
 
 except ImportError:
